@@ -3,6 +3,7 @@ package main
 import (
 	"fmt"
 	"strconv"
+	"strings"
 
 	"github.com/obolnetwork/charon/dkg"
 
@@ -130,6 +131,8 @@ func aggVariants(ce *cer, kind string, rng *hx.Rng) [][]keyed {
 
 func gen(a hx.Args, run *hx.Run, exec func(string), cur func() *cer, lastProtoOK func() bool) {
 	protoDone := 0
+	kmDone := false
+	appendDone := false
 	rng := hx.NewRng(a.Seed)
 	maxN, maxV := 5, 3
 	if a.Tier == "thorough" {
@@ -157,6 +160,21 @@ func gen(a hx.Args, run *hx.Run, exec func(string), cur func() *cer, lastProtoOK
 			}
 			exec(c.opLine())
 			continue
+		}
+		// keymanager mode: quick tier, odd seeds: one extra ceremony with a refusing keymanager (expected to fail at the
+		// very end; the accepting nodes' imports are checked too); thorough tier: every fifth ceremony, half of them all-accepting
+		quick := a.Tier == "quick" || a.Tier == "search"
+		if (quick && a.Seed%2 == 1 && done == 1 && !kmDone) || (!quick && rng.Chance(1, 10)) {
+			kc := c
+			kc.sched = rng.U64() % 1000000
+			modes := []byte(strings.Repeat("a", kc.n))
+			modes[rng.Intn(kc.n)] = "uef"[rng.Intn(3)]
+			kc.km = string(modes)
+			kmDone = true
+			exec(kc.opLine())
+		}
+		if !quick && rng.Chance(1, 10) {
+			c.km = strings.Repeat("a", c.n)
 		}
 		exec(c.opLine())
 		ce := cur()
@@ -291,6 +309,9 @@ func gen(a hx.Args, run *hx.Run, exec func(string), cur func() *cer, lastProtoOK
 			exec(fmt.Sprintf("xrun %d", taus[i]))
 		}
 		// cluster-changing protocols on what the ceremony wrote: one per quick seed, chains in the thorough tier
+		if c.km != "" {
+			continue // the key shares are in the keymanagers: the protocols below read keystores from disk
+		}
 		chain := 0
 		if a.Tier == "quick" || a.Tier == "search" {
 			if protoDone == 0 && verAtLeast(c.ver, 7) { // a v1.6.0 lock is refused by every protocol (known finding)
@@ -391,6 +412,49 @@ func gen(a hx.Args, run *hx.Run, exec func(string), cur func() *cer, lastProtoOK
 			}
 			for j := 0; j < cn; j++ {
 				exec(fmt.Sprintf("part %d", j))
+			}
+		}
+		// the add-validators ceremony on the latest generation: quick tier even seeds once, thorough tier every third ceremony
+		if (quick && a.Seed%2 == 0 && !appendDone) || (!quick && rng.Chance(1, 3)) {
+			appendDone = true
+			extra := 1 + rng.Intn(2)
+			exec(fmt.Sprintf("append %d %d", extra, rng.U64()%1000000))
+			if lastProtoOK() {
+				total := nv + extra
+				for k := 0; k < total; k++ {
+					exec(fmt.Sprintf("aval %d", k))
+				}
+				msg := make([]byte, 1+rng.Intn(48))
+				for i := range msg {
+					msg[i] = byte(rng.U64())
+				}
+				for _, k := range []int{rng.Intn(nv), nv, total - 1} {
+					full := 1<<cn - 1
+					for m := 1; m <= full; m++ {
+						if popcount(m) == ct || (popcount(m) == ct-1 && rng.Chance(1, 6)) {
+							var ids []int
+							for i := 0; i < cn; i++ {
+								if m&(1<<i) != 0 {
+									ids = append(ids, i+1)
+								}
+							}
+							exec(fmt.Sprintf("nrec %d %s", k, idsStr(ids)))
+							exec(fmt.Sprintf("nsig %d %s %x", k, idsStr(ids), msg))
+						}
+					}
+				}
+				for j := 0; j < cn; j++ {
+					exec(fmt.Sprintf("part %d", j))
+				}
+				if !quick && rng.Chance(1, 2) { // a reshare of the appended cluster
+					exec(fmt.Sprintf("reshare %d", rng.U64()%1000000))
+					if lastProtoOK() {
+						for k := 0; k < total; k++ {
+							exec(fmt.Sprintf("nval %d", k))
+						}
+						exec(fmt.Sprintf("part %d", rng.Intn(cn)))
+					}
+				}
 			}
 		}
 	}
